@@ -375,12 +375,14 @@ func TestProp(t *testing.T) {
 	}
 	ctx := h.Setup(t, "C03")
 	rapid.Check(t, func(t *rapid.T) {
-		mode := rapid.SampledFrom([]string{"tokens", "tokens", "tokens", "prefix", "raw", "soup", "edit", "edit", "pristine"}).Draw(t, "mode")
+		mode := rapid.SampledFrom([]string{"tokens", "tokens", "tokens", "prefix", "raw", "soup", "edit", "edit", "pristine", "confuse", "confuse"}).Draw(t, "mode")
 		c := Case{Origin: mode}
 		switch mode {
 		case "pristine":
 			p := pick(t, "prog")
 			c.Src, c.Origin = p.Src, "pristine:"+p.Name
+		case "confuse":
+			c.Src, c.Ops = confuse(t)
 		case "tokens":
 			p, q := pick(t, "prog"), pick(t, "other")
 			k := rapid.IntRange(1, 4).Draw(t, "k")
